@@ -1348,6 +1348,7 @@ impl<T: Elem + SatisfyTraits<Tr>, M: MemCaps, Tr: ?Sized + TrCaps> DynRig for Ri
             bytes_len: av.as_bytes().len(),
             bytes_eq: true,
             misalign: (av.as_bytes().as_ptr() as usize) % std::mem::align_of::<T>(),
+            typed_getters: None,
         };
         if s.len > s.cap || !s.typeid_ok || !s.layout_ok {
             // never read beyond what the backend owns
@@ -1360,6 +1361,7 @@ impl<T: Elem + SatisfyTraits<Tr>, M: MemCaps, Tr: ?Sized + TrCaps> DynRig for Ri
         }
         match av.downcast_ref::<T>() {
             Some(tv) => {
+                s.typed_getters = Some((tv.len(), tv.capacity(), tv.is_empty(), tv.as_ptr() as usize));
                 let sl = tv.as_slice();
                 if sl.len() != s.len || (sl.as_ptr() as usize != s.base && size_of::<T>() != 0) {
                     s.vals.push(Val::Garbage(u64::MAX - 1));
